@@ -89,6 +89,7 @@ package sourcebundle
 //@       && r.RemotePackageDownloadStart != nil && r.RemotePackageDownloadSuccess != nil && r.RemotePackageDownloadFailure != nil && r.RemotePackageDownloadAlready != nil && r.Diagnostics != nil
 
 //@ func extractVersionListFromResponse -> (r)
+//@   replay bundleWorld:
 //@   pure
 //@   defines def.sorted: r == sortedVersionsOf(modPackageInfos)
 
@@ -97,6 +98,7 @@ package sourcebundle
 //@ macro builderOpen(B): B != nil && B.analyzed != nil && B.remotePackageDirs != nil && B.remotePackageMeta != nil && B.resolvedRegistry != nil
 //@     && B.packageVersionDeprecations != nil && B.registryPackageVersions != nil
 //@ func (*Builder).findRegistryPackageSource -> (r, err)
+//@   replay bundleWorld:
 //@   sweep
 //@   requires pre.b: b != nil && b.registryPackageVersions != nil && b.resolvedRegistry != nil && b.packageVersionDeprecations != nil
 //@   ghost $selected T.versions.Version
@@ -131,6 +133,7 @@ package sourcebundle
 
 // Fetching one remote package into the bundle directory.
 //@ func (*Builder).ensureRemotePackage -> (localDir, err)
+//@   replay bundleWorld:
 //@   sweep
 //@   opt propagate-errors
 //@   opt lemmas=bundle
@@ -165,6 +168,9 @@ package sourcebundle
 
 // The queue-draining loop of the builder.
 //@ func (*Builder).resolvePending -> (diags)
+//@   replay bundleWorld:
+//@   ensures-bounded bundleWorld C14.resolve.terminates-and-works-once-on-small-worlds: true
+//@   ensures-bounded bundleWorld C08.resolve.closure-on-small-worlds: true
 //@   requires pre.b: builderOpen(b) && isAbs(b.targetDir) && Clean(b.targetDir) == b.targetDir
 //@   frame-at-call invoke github.com/hashicorp/go-slug/sourcebundle.DependencyFinder.FindDependencies: b.pendingRemote, b.pendingRegistry, diags
 //@   invariant loop1 C08.resolve.inv.outer: builderOpen(b) && isAbs(b.targetDir) && Clean(b.targetDir) == b.targetDir
@@ -199,6 +205,7 @@ package sourcebundle
 //@   at-call Builder.AddRegistrySource C17.add-final.exact-version: a2 == addr.src && a3 == onlyVersion(addr.version) && a4 == depFinder
 
 //@ func (*Builder).Close -> (r, err)
+//@   replay bundleWorld:
 //@   requires pre.b: b != nil
 //@   at-panic C12.close.refuses-when-poisoned: b.targetDir == ""
 //@   at-call Builder.writeManifest C12,C09.close.manifest-path: a1 == Join(old(b.targetDir), "terraform-sources.json") && b.targetDir == ""
@@ -241,6 +248,7 @@ package sourcebundle
 
 // Writing the manifest: one entry per package with its printed address, directory name and metadata.
 //@ func (*Builder).writeManifest -> (err)
+//@   replay bundleWorld:
 //@   requires pre.b: b != nil
 //@   opt propagate-errors
 //@   at-call append#1 C09.manifest.pkg-entry: a1.SourceAddr == remotePkgStr(pkgAddr) && a1.LocalDir == localDirName
